@@ -175,8 +175,55 @@ def _shipped_run(n_items: int):
     return run
 
 
+def _earlier_use(what: str, k: int) -> None:
+    """something the process did before the construction under test - in particular operations that *failed* (a damaged file that
+    would not load, a drawing that would not parse, a rejected construction): whatever they left behind, 'can never hold' still holds"""
+    from maze_dataset import MazeDataset, MazeDatasetConfig
+    from maze_dataset.maze.lattice_maze import LatticeMaze, SolvedMaze, TargetedLatticeMaze
+
+    g = M.g_make(3, 3, [1] * 18)
+    sols = [[[0, 0], [0, 1], [0, 2]], [[2, 2], [1, 2]], [[1, 1], [1, 0], [0, 0], [0, 1]]]
+    try:
+        if what.startswith("load"):
+            _, fmt, damage = what.split(":")
+            ds = MazeDataset(MazeDatasetConfig(name="earlier", grid_n=3, n_mazes=len(sols)), [L.solved(g, so) for so in sols])
+            ser = {"full": ds._serialize_full, "minimal": ds._serialize_minimal, "soln_cat": ds._serialize_minimal_soln_cat}[fmt]()
+            if damage != "none":
+                keys = sorted(kk for kk, v in ser.items() if isinstance(v, np.ndarray) and v.dtype.kind in "iu" and v.size)
+                if keys:
+                    kk = keys[k % len(keys)]
+                    arr = np.array(ser[kk])
+                    if damage == "coordinate":
+                        arr.flat[k % arr.size] = 99
+                    elif damage == "negative":
+                        arr.flat[k % arr.size] = -3
+                    else:
+                        arr = arr[: max(0, len(arr) - 1)]
+                    ser[kk] = arr
+                elif fmt == "full" and ser.get("mazes"):
+                    ser["mazes"] = list(ser["mazes"])
+                    ser["mazes"][0] = {**ser["mazes"][0], "solution": [[0, 0], [7, 7]]} if isinstance(ser["mazes"][0], dict) else ser["mazes"][0]
+            MazeDataset.load(ser)
+        elif what == "construct-rejected":
+            SolvedMaze(connection_list=M.g_cl(g), solution=np.array([[0, 0], [5, 5]]))
+        elif what == "targeted-rejected":
+            TargetedLatticeMaze(connection_list=M.g_cl(g), start_pos=np.array([-1, 0]), end_pos=np.array([0, 0]))
+        elif what == "drawing-rejected":
+            SolvedMaze.from_ascii("###\n#S#\n###")
+        elif what == "tokens-rejected":
+            from maze_dataset.tokenization import MazeTokenizer, TokenizationMode
+
+            SolvedMaze.from_tokens("<ADJLIST_START> (0,0) <--> (0,1) ; <ADJLIST_END> <PATH_START> (0,0) <PATH_END>".split(), MazeTokenizer(tokenization_mode=TokenizationMode.AOTP_UT_uniform))
+        elif what == "path-query-rejected":
+            LatticeMaze(connection_list=np.zeros((2, 3, 3), dtype=bool)).find_shortest_path((0, 0), (2, 2))
+    except Exception:  # noqa: BLE001 - failing is the point (and no listed property is judged here)
+        pass
+
+
 def check_bounds(case: dict):
     r, c = case["r"], case["c"]
+    for k, what in enumerate(case.get("earlier", [])):
+        _earlier_use(what, core.digest(case) + k)
     s, e, kind = case["s"], case["e"], case["kind"]
     g = M.g_make(r, c, [0] * (2 * r * c))
     inb = all(0 <= p[0] < r and 0 <= p[1] < c for p in (s, e))
@@ -318,8 +365,12 @@ def _bounds_random(draw, hi):
     # near the grid, and far outside it at values that alias an in-grid coordinate modulo a power of two (narrow integer storage)
     far = lambda n: st.builds(lambda k, m, sg: sg * m + k, st.integers(0, n - 1), st.sampled_from([128, 256, 512, 1024, 65536, 2**31, 2**32]), st.sampled_from([1, -1]))  # noqa: E731
     co = lambda n: st.one_of(st.integers(-3, n + 2), st.integers(-3, n + 2), far(n), st.sampled_from([127, 128, 255, -128, -129, -255, -256, 32767, 32768]))  # noqa: E731
-    return {"r": r, "c": c, "s": [draw(co(r)), draw(co(c))], "e": [draw(co(r)), draw(co(c))],
+    case = {"r": r, "c": c, "s": [draw(co(r)), draw(co(c))], "e": [draw(co(r)), draw(co(c))],
             "kind": draw(st.sampled_from(["targeted", "solved"])), "via": draw(st.sampled_from(["ctor", "from_lattice_maze", "allow_invalid"]))}
+    if draw(st.integers(0, 2)) == 0:
+        loads = [f"load:{f}:{d}" for f in ("minimal", "soln_cat", "full") for d in ("coordinate", "negative", "shorter", "none")]
+        case["earlier"] = draw(st.lists(st.sampled_from(loads + ["construct-rejected", "targeted-rejected", "drawing-rejected", "tokens-rejected", "path-query-rejected"]), min_size=1, max_size=3))
+    return case
 
 
 @st.composite
